@@ -90,8 +90,20 @@ func init() {
 			time.Sleep(60 * time.Millisecond)
 			d.Hand.SetHold("BeforeRebalanceStart", false)
 			d.Hand.Resume()
-			// one cycle takes the delay counted from the last notification; give a second one the time to show
-			time.Sleep(900 * time.Millisecond)
+			// one cycle takes the delay counted from the last notification: long where it is due (it ends the wait when it
+			// comes), then the time a second one would need to show
+			for t0 := time.Now(); time.Since(t0) < 5*time.Second; time.Sleep(10 * time.Millisecond) {
+				n := 0
+				for _, cb := range d.Hand.Peek() {
+					if cb == "AfterRebalanceEnd" {
+						n++
+					}
+				}
+				if n > 0 {
+					break
+				}
+			}
+			time.Sleep(700 * time.Millisecond)
 			for _, cb := range d.Hand.Take() {
 				if cb == "BeforeRebalanceEnd" {
 					res.Cycles++
